@@ -44,7 +44,10 @@ def to_units(t):
         return None
     u = t * UNIT
     if u != int(u):
-        raise AssertionError(f"non-dyadic time {t!r}")
+        # a timeout the scripts never use (they are all multiples of the clock's unit): a wait the code under test
+        # invented.  The transport honours it, rounded up to the next unit, so that its effect on the timing is observed.
+        import math
+        return int(math.ceil(u))
     return int(u)
 
 
@@ -236,7 +239,7 @@ def op_coq(o):
         return f"(OPushDeath {sstr_coq(o[1])} {coq.z(o[2])})"
     if k == "push_stream":
         return f"(OPushStream {coq.z(o[1])} {coq.boolean(o[2])})"
-    if k == "pop":
+    if k in ("pop", "pop_exc"):      # the model does not care how the context is left: it is unregistered either way
         return "OPop"
     if k == "pop_at":
         return f"(OPopAt {coq.nat(o[1])})"
@@ -354,6 +357,17 @@ def run_script(case, channel_cls=Channel):
                     if stack:
                         stack.pop().__exit__(None, None, None)
                     r = [0]
+                elif k == "pop_exc":
+                    # the context is left by an exception raised in its body (a failed assertion of the test, a timeout)
+                    if stack:
+                        exc = RuntimeError("raised in the body of the context")
+                        try:
+                            swallowed = stack.pop().__exit__(RuntimeError, exc, None)
+                        except RuntimeError as e2:
+                            swallowed = e2 is not exc
+                        r = [0] if not swallowed else [9, "context swallowed the exception"]
+                    else:
+                        r = [0]
                 elif k == "pop_at":
                     if o[1] < len(stack):
                         stack.pop(len(stack) - 1 - o[1]).__exit__(None, None, None)
